@@ -412,6 +412,20 @@ def family_conn(tier='quick'):
                             conn_choices=[('CC', [f's{i}' for i in range(ns)], [f't{i}' for i in range(nt)], [])],
                             label=f'conn-perm-{ns}x{nt}-{trial}'))
             k += 1
+    # the shapes the pattern encoders are written for, with 3-4 targets (choose 1 of N, take M of N with and without
+    # repetition, down-select, permute, partition, assign)
+    one, opt_, any_ = ('list', (1,)), ('range', 0, 1), ('min', 0)
+    shapes = [('choose-1-of-3', [(one, False)], [(opt_, False)] * 3), ('choose-1-of-4', [(one, False)], [(opt_, False)] * 4),
+              ('take-2-of-3', [(('list', (2,)), False)], [(opt_, False)] * 3), ('take-2-of-4', [(('list', (2,)), False)], [(opt_, False)] * 4),
+              ('take-3-of-4', [(('list', (3,)), False)], [(opt_, False)] * 4),
+              ('take-2-of-3-repeated', [(('list', (2,)), True)], [(any_, True)] * 3),
+              ('downselect-3', [(any_, False)], [(opt_, False)] * 3), ('permute-3', [(one, False)] * 3, [(one, False)] * 3),
+              ('partition-2x3', [(any_, False)] * 2, [(one, False)] * 3), ('assign-2x3', [(any_, False)] * 2, [(any_, False)] * 3)]
+    for name, ss, ts in (shapes if tier == 'thorough' else shapes[:3] + shapes[3:8:2] + shapes[8:]):
+        conns = [(f's{i}', d, r, 'A') for i, (d, r) in enumerate(ss)] + [(f't{i}', d, r, 'A') for i, (d, r) in enumerate(ts)]
+        out.append(Desc(['A'], [], ['A'], conns=conns,
+                        conn_choices=[('CC', [f's{i}' for i in range(len(ss))], [f't{i}' for i in range(len(ts))], [])],
+                        label=f'conn-shape-{name}'))
     # conditional connectors: source s1 / target t1 tied to options of a selection choice
     for trial in range(6 if tier == 'quick' else 20):
         nodes = ['A', 'P0', 'P1']
